@@ -200,7 +200,7 @@ func clientUDPSite(enc, comp, lim bool) (int, error) {
 	}
 	cc := &v1.ClientCommonConfig{UDPPacketSize: 1500}
 	cc.Auth.Token = hx.DefaultToken
-	p := cproxy.NewProxy(context.Background(), conf, cc, transport.NewMessageTransporter(make(chan msg.Message, 16)), nil)
+	p := cproxy.NewProxy(context.Background(), conf, cc, transport.NewMessageTransporter(make(chan msg.Message, 16), nil), nil)
 	if p == nil {
 		return 0, fmt.Errorf("client proxy not created")
 	}
